@@ -59,7 +59,7 @@ var c05Frags = []string{
 	// beyond the core:
 	"<scrİpt>", "<script", "<script ", "</script", "<title>", "</title>", "<textarea>", "<noscript>", "<select>", "<table>", "<x>", "</x>",
 	"<script\x00>", "<script/ >", "</script >", "</style foo>", "<style\n>", "<iframe>", "</iframe>", "<mtext>", "<desc>", "<foreignobject>",
-	"<annotation-xml>", "<STYLE/>", "<script/src=x>", "<ſcript>", "<style></style>",
+	"<annotation-xml>", "<STYLE/>", "<script/src=x>", "<ſcript>", "<style></style>", "<![CDATA[", "<![CDATA[>", "]]>",
 }
 
 const c05CoreN = 20
